@@ -183,8 +183,8 @@ def check(case):
     s, M2 = call(est.transform, list(train))
     if s == "exc":
         r.fail(exc_kind(M2), site + ".transform[train]", exc_detail(M2))
-    elif (M2 != M).nnz != 0:
-        r.fail("fit-vs-transform", site + ".transform[train]", "transform(train) differs from fit_transform(train)")
+    elif M2.shape != M.shape or (M2 != M).nnz != 0:
+        r.fail("fit-vs-transform", site + ".transform[train]", "transform(train) (shape %s) differs from fit_transform(train) (shape %s)" % (M2.shape, M.shape))
     return r
 
 
